@@ -106,6 +106,36 @@ RS2LEAN = VERIF / "rs2lean"
 GEN = LEAN / "RxModel" / "Gen"
 
 
+# tie modules that need the compiler's own macro expansion of the crate (nightly `-Zunpretty=expanded`)
+EXPANDED_TIES = ("RxModel.GenTie.Subject", "RxModel.GenTie.SubjectThreads")
+
+
+def expanded_source():
+    """The crate source with every macro expanded by the compiler itself (`cargo +nightly rustc -- -Zunpretty=expanded`),
+    cached under work/ by the content of /repo/src.  Returns (path or None, note)."""
+    WORK.mkdir(exist_ok=True)
+    h = hashlib.sha1()
+    for f in sorted((REPO / "src").rglob("*.rs")) + [REPO / "Cargo.toml"]:
+        h.update(str(f.relative_to(REPO)).encode())
+        h.update(f.read_bytes())
+    out = WORK / f"expanded_{h.hexdigest()[:16]}.rs"
+    if out.exists() and out.stat().st_size > 0:
+        return out, "cached"
+    p = subprocess.run(["cargo", "+nightly", "--version"], env=ENV, stdout=subprocess.PIPE, stderr=subprocess.STDOUT, text=True)
+    if p.returncode != 0:
+        return None, "nightly toolchain unavailable: " + p.stdout.strip()[:200]
+    env = dict(ENV, CARGO_TARGET_DIR=str(WORK / "expand-target"))
+    p = subprocess.run(["cargo", "+nightly", "rustc", "--offline", "--lib", "--no-default-features", "--features",
+                        "futures-scheduler", "--", "-Zunpretty=expanded"], cwd=REPO, env=env,
+                       stdout=subprocess.PIPE, stderr=subprocess.PIPE, text=True)
+    if p.returncode != 0 or not p.stdout.strip():
+        return None, "expansion failed: " + p.stderr[-600:]
+    for old in WORK.glob("expanded_*.rs"):
+        old.unlink()
+    out.write_text(p.stdout)
+    return out, "expanded"
+
+
 def regen_and_tie(tie_modules):
     """Regenerate lean/RxModel/Gen/*.lean from the CURRENT /repo/src with the translator, then build the
     property's tie theorems (RxModel.GenTie.*) against the regenerated definitions.
@@ -118,8 +148,21 @@ def regen_and_tie(tie_modules):
     rc, out = sh(["cargo", "build", "--release", "--offline"], cwd=RS2LEAN)
     if rc != 0:
         return {m: "rs2lean does not build" for m in tie_modules}, out, time.time() - t0
-    rc, out = sh([str(RS2LEAN / "target" / "release" / "rs2lean"), str(REPO / "src"), str(GEN)])
+    cmd = [str(RS2LEAN / "target" / "release" / "rs2lean"), str(REPO / "src"), str(GEN)]
+    skipped = []
+    if any(m in EXPANDED_TIES for m in tie_modules):
+        exp, note = expanded_source()
+        logs += f"expanded source: {note}\n"
+        if exp is not None:
+            cmd.append(str(exp))
+        elif note.startswith("nightly toolchain unavailable"):
+            # cannot be decided in this environment: these ties are skipped (the sampled tie remains), said in the log
+            skipped = [m for m in tie_modules if m in EXPANDED_TIES]
+            tie_modules = [m for m in tie_modules if m not in EXPANDED_TIES]
+    rc, out = sh(cmd)
     logs += out
+    if skipped:
+        logs += "skipped (no nightly toolchain): " + " ".join(skipped) + "\n"
     notes = {}
     for line in out.splitlines():
         # "ops/distinct.rs: DistinctObserver: field seen: type ... not understood"
